@@ -1,6 +1,7 @@
 package main
 
 import (
+	"go/ast"
 	"fmt"
 	"go/token"
 	"go/types"
@@ -44,11 +45,23 @@ func (fv *FV) oblige(st *State, kind, detail string, pos token.Pos, goal Term, c
 		fv.obls = append(fv.obls, o)
 		return
 	}
+	if goal.S == "false" && syntacticKinds[kind] {
+		// a verdict reached on the program text (ownership, lock discipline, constant table): refuted
+		// without a solver; the path is not cut short
+		o := &Obligation{Func: fv.short, Kind: kind, Detail: detail, Pos: pos, PosStr: fv.eng.pos(pos),
+			script: st.script, goal: goal, Path: st.path, Clause: clause, Status: "sat", Solver: "syntactic",
+			Model: "refuted on the program text: " + clause}
+		o.id = len(fv.obls)
+		fv.obls = append(fv.obls, o)
+		return
+	}
 	o := &Obligation{Func: fv.short, Kind: kind, Detail: detail, Pos: pos, PosStr: fv.eng.pos(pos),
 		script: st.script, goal: goal, Path: st.path, Clause: clause}
 	fv.addObl(st, o)
 	st.assume(goal)
 }
+
+var syntacticKinds = map[string]bool{"table": true, "owned": true, "lock": true, "guard": true, "order": true}
 
 // ---- loop analysis -------------------------------------------------------
 
@@ -651,6 +664,13 @@ func (fv *FV) Verify() {
 		}
 	}
 	fv.entryScript = st.script
+	if fv.spec != nil {
+		// after the vacuity guard's snapshot: a failed table obligation makes the rest of the path moot,
+		// which must not be mistaken for contradictory entry assumptions
+		for _, ct := range fv.spec.Tables {
+			fv.constTable(st, ct)
+		}
+	}
 	fv.run(st)
 }
 
@@ -782,3 +802,149 @@ func calleeResultType(fn *ssa.Function, name string, ri int) types.Type {
 
 // functypeNames: last parts of the keys of functype contracts (filled when the specs are loaded)
 var functypeNames = map[string]bool{}
+
+// constTable: `consttable VAR: K => V, ...`. Decided by constant evaluation of the real source: the
+// package-level variable VAR of the function's package is initialised by a map composite literal whose
+// keys and values are constants; it must contain exactly the listed entries (one obligation per entry,
+// one for the size) and no function of the package may write to it (one obligation). When all of this
+// holds the entries are assumed in the function's entry state.
+func (fv *FV) constTable(st *State, ct ConstTable) {
+	pkg := fv.eng.byName[fv.pkgName()]
+	pos := fv.fn.Pos()
+	fail := func(detail, why string) {
+		fv.oblige(st, "table", ct.Var+":"+detail, pos, tFalse, why)
+	}
+	if pkg == nil {
+		fail("found", "package not loaded")
+		return
+	}
+	// locate the initialiser
+	var lit *ast.CompositeLit
+	for _, f := range pkg.Syntax {
+		for _, d := range f.Decls {
+			gd, ok := d.(*ast.GenDecl)
+			if !ok || gd.Tok != token.VAR {
+				continue
+			}
+			for _, sp := range gd.Specs {
+				vs := sp.(*ast.ValueSpec)
+				for i, n := range vs.Names {
+					if n.Name == ct.Var && i < len(vs.Values) {
+						if cl, ok := vs.Values[i].(*ast.CompositeLit); ok {
+							lit = cl
+						}
+					}
+				}
+			}
+		}
+	}
+	if lit == nil {
+		fail("found", "package-level variable "+ct.Var+" with a composite-literal initialiser not found")
+		return
+	}
+	fv.oblige(st, "table", ct.Var+":found", pos, tTrue, "the table is a package-level composite literal")
+	type entry struct{ k, v Term }
+	var have []entry
+	allConst := true
+	for _, el := range lit.Elts {
+		kv, ok := el.(*ast.KeyValueExpr)
+		if !ok {
+			allConst = false
+			continue
+		}
+		ktv, vtv := pkg.TypesInfo.Types[kv.Key], pkg.TypesInfo.Types[kv.Value]
+		if ktv.Value == nil || vtv.Value == nil {
+			allConst = false
+			continue
+		}
+		have = append(have, entry{fv.constTerm(ktv.Value, ktv.Type), fv.constTerm(vtv.Value, vtv.Type)})
+	}
+	if !allConst {
+		fail("const", "every key and value of the literal must be a constant")
+		return
+	}
+	var errs []string
+	env := fv.entryEnv(st, &errs)
+	ok := true
+	var want []entry
+	for i := range ct.Keys {
+		k, v := env.Eval(ct.Keys[i].E), env.Eval(ct.Vals[i].E)
+		want = append(want, entry{k, v})
+		found := false
+		for _, h := range have {
+			if h.k.S == k.S && h.v.S == v.S {
+				found = true
+			}
+		}
+		goal := tTrue
+		if !found {
+			goal = tFalse
+			ok = false
+		}
+		fv.oblige(st, "table", ct.Var+":"+ct.Keys[i].Text, pos, goal, ct.Var+"["+ct.Keys[i].Text+"] == "+ct.Vals[i].Text+" in the literal")
+	}
+	goal := tTrue
+	if len(have) != len(want) {
+		goal = tFalse
+		ok = false
+	}
+	fv.oblige(st, "table", ct.Var+":size", pos, goal, fmt.Sprintf("the literal has exactly the %d listed entries (it has %d)", len(want), len(have)))
+	// never written outside its initialiser
+	ro := true
+	for _, f := range fv.eng.funcs {
+		if f == nil || funcPkgName(f) != fv.pkgName() {
+			continue
+		}
+		for _, b := range f.Blocks {
+			for _, in := range b.Instrs {
+				switch x := in.(type) {
+				case *ssa.MapUpdate:
+					if ld, isLd := x.Map.(*ssa.UnOp); isLd {
+						if g, isG := ld.X.(*ssa.Global); isG && g.Name() == ct.Var && f.Name() != "init" {
+							ro = false
+						}
+					}
+				case *ssa.Store:
+					if g, isG := x.Addr.(*ssa.Global); isG && g.Name() == ct.Var && f.Name() != "init" {
+						ro = false
+					}
+				}
+			}
+		}
+	}
+	goal = tTrue
+	if !ro {
+		goal = tFalse
+		ok = false
+	}
+	fv.oblige(st, "table", ct.Var+":readonly", pos, goal, "no function of the package writes to "+ct.Var)
+	fv.reportErrs(errs)
+	if !ok {
+		return
+	}
+	// the facts, in the entry state
+	gt, found := env.pkgObject(fv.pkgName(), ct.Var)
+	if !found {
+		return
+	}
+	mt, isMap := gt.T.Underlying().(*types.Map)
+	if !isMap {
+		return
+	}
+	ks, vs := fv.sortOf(mt.Key()), fv.sortOf(mt.Elem())
+	dh := fv.heapGet(st.heap, st.epoch, mapDomHeap(ks, vs), arraySort(SInt, arraySort(ks, SBool)))
+	vh := fv.heapGet(st.heap, st.epoch, mapValHeap(ks, vs), arraySort(SInt, arraySort(ks, vs)))
+	st.assume(tNot(tEq(gt, mkInt(0))))
+	for _, w := range want {
+		st.assume(tSelect(tSelect(dh, gt, arraySort(ks, SBool)), w.k, SBool))
+		st.assume(tEq(tSelect(tSelect(vh, gt, arraySort(ks, vs)), w.k, vs), w.v))
+	}
+	// and nothing else is in the table
+	q := "k_tbl"
+	var alts []string
+	for _, w := range want {
+		alts = append(alts, "(= "+q+" "+w.k.S+")")
+	}
+	st.assume(Term{S: fmt.Sprintf("(forall ((%s %s)) (=> (select (select %s %s) %s) (or %s)))", q, ks, dh.S, gt.S, q, strings.Join(alts, " ")), Sort: SBool})
+	fv.assume("consttable " + ct.Var + ": the table's entries are read from the source by constant evaluation (go/types), not derived by symbolic execution of the package initialiser")
+}
